@@ -3,20 +3,23 @@ package main
 // Stream `authn`: the four real authenticators of the CA server, driven through their public
 // Authenticate entry points with locally minted credentials:
 //
-//	authn oidc <td> <expected audiences> <tokkind> <sub> <audkind> <aud>
+//	<tr> = grpc | http (security.AuthContext with a gRPC context / with an *http.Request)
+//	authn oidc <tr> <td> <expected audiences> <hdrform> <tokkind> <sub> <audkind> <aud>
 //	      real NewJwtAuthenticator against an in-process JWKS endpoint; tokens minted with go-jose.
-//	      tokkind: nohdr garbage expired wrongiss otherkey ok; audkind: list string absent
-//	authn kube <td> <primary> <aliases a=b,..> <remotes|nil> <clusterid hdr|-> <tokhdr none|bearer|basic> <review>
-//	      real NewKubeJWTAuthenticator over fake clientsets whose TokenReview reactor is scripted.
+//	      hdrform: none bearer istio basic two; tokkind: garbage expired wrongiss otherkey ok; audkind: list string absent
+//	authn kube <tr> <td> <primary> <aliases a=b,..> <remotes|nil> <clusterid hdr|-> <hdrform> <token> <TokenAudiences> <review>
+//	      real NewKubeJWTAuthenticator over fake clientsets whose TokenReview reactor is scripted and
+//	      records the submitted Spec (token, audiences) and the cluster asked.
 //	      review: apiErr|error|authenticated|groups|username|podNameExtra|podUIDExtra  (extras: "-" absent, else list)
-//	authn xfcc <cidrs> <peer addr|nopeer> <header values|-> <parsed>
+//	authn xfcc <tr> <cidrs> <peer addr|nopeer> <header values|-> <parsed>
 //	      real XfccAuthenticator; `parsed` is what the third-party xfccparser returns for the first
 //	      header value (the model takes the parse as given): err | list of uris|dns|hasSubject|cn
-//	authn cert <peer nopeer|noauth|other|tls> <chains>
+//	authn cert <tr> <peer nopeer|noauth|other|tls> <chains>
 //	      real ClientCertAuthenticator; chains: list of chains, chain = certs joined by '|',
 //	      cert = nosan | bad | san:<entries>, entry = D:<s> U:<s> I:<hex> E:<s>
 //
-// Output: crash | nil | err | ok ids=<list> kube=<name|ns|uid|sa> [via=<client>]
+// Output: crash | nil | err | ok ids=<list> kube=<name|ns|uid|sa>, kube lines followed by
+// [via=<client> aud=<Spec.Audiences> tok=<Spec.Token>] when a TokenReview was submitted
 
 import (
 	"context"
@@ -205,7 +208,13 @@ func (g *remoteGetter) ListClusters() []cluster.ID { return g.order }
 func scriptedClient(name string, r reviewSpec, via *string) kubernetes.Interface {
 	c := fake.NewSimpleClientset()
 	c.PrependReactor("create", "tokenreviews", func(action ktesting.Action) (bool, runtime.Object, error) {
-		*via = name
+		// record what was submitted: which cluster's API server, which token, which audiences
+		*via = " via=" + wire.Enc(name)
+		if ca, ok := action.(ktesting.CreateAction); ok {
+			if in, ok := ca.GetObject().(*k8sauth.TokenReview); ok {
+				*via += " aud=" + wire.EncList(in.Spec.Audiences) + " tok=" + wire.Enc(in.Spec.Token)
+			}
+		}
 		if r.apiErr {
 			return true, nil, errors.New("api server unavailable")
 		}
@@ -333,65 +342,76 @@ func (r authnResult) format() string {
 	case r.crash:
 		return "crash"
 	case r.err != nil:
-		return "err" + viaTok(r.via)
+		return "err" + r.via
 	case r.caller == nil:
 		return "nil"
 	}
 	k := r.caller.KubernetesInfo
 	return fmt.Sprintf("ok ids=%s kube=%s%s", wire.EncList(r.caller.Identities),
-		wire.Enc(encFields(k.PodName, k.PodNamespace, k.PodUID, k.PodServiceAccount)), viaTok(r.via))
+		wire.Enc(encFields(k.PodName, k.PodNamespace, k.PodUID, k.PodServiceAccount)), r.via)
 }
 
-func viaTok(v string) string {
-	if v == "" {
-		return ""
+// prepared is a real authenticator plus the transport-level ingredients of the request it is to see.
+type prepared struct {
+	auth     security.Authenticator
+	http     bool
+	md       metadata.MD // gRPC metadata / HTTP headers
+	hasPeer  bool
+	peerAddr string
+	authInfo credentials.AuthInfo // nil: peer without auth info
+	httpTLS  *tls.ConnectionState
+	via      *string
+}
+
+func authValues(form, tok string) []string {
+	switch form {
+	case "bearer":
+		return []string{"Bearer " + tok}
+	case "istio":
+		return []string{"Istio " + tok}
+	case "basic":
+		return []string{"Basic dXNlcjpwYXNz"}
+	case "two":
+		return []string{"Basic dXNlcjpwYXNz", "Bearer " + tok}
 	}
-	return " via=" + wire.Enc(v)
+	return nil
 }
 
-func (s *authnSUT) run(f []string) (res authnResult) {
-	defer func() {
-		if rec := recover(); rec != nil {
-			res = authnResult{crash: true}
-		}
-	}()
+// prepare builds the REAL authenticator described by an `authn` line (f[0] is the kind).
+func (s *authnSUT) prepare(f []string) (*prepared, error) {
 	if len(f) < 2 {
-		return authnResult{fixErr: errors.New("short line")}
+		return nil, errors.New("short line")
 	}
-	switch f[1] {
+	p := &prepared{http: f[1] == "http", md: metadata.MD{}, hasPeer: true, peerAddr: "10.0.0.9:1234", authInfo: credentials.TLSInfo{}, via: new(string)}
+	switch f[0] {
 	case "oidc":
-		if len(f) != 8 {
-			return authnResult{fixErr: errors.New("bad oidc line")}
+		if len(f) != 9 {
+			return nil, errors.New("bad oidc line")
 		}
 		if s.oidc == nil {
 			s.oidc = newOIDCFixture()
 		}
 		a, err := s.oidc.authenticator(wire.Dec(f[2]), wire.DecList(f[3]))
 		if err != nil {
-			return authnResult{fixErr: err}
+			return nil, err
 		}
-		md := metadata.MD{}
-		if f[4] != "nohdr" {
-			sub := wire.Dec(f[5])
-			if f[5] == "absent" {
-				sub = "\x00absent"
-			}
-			tok, err := s.oidc.token(f[4], sub, f[6], wire.DecList(f[7]))
-			if err != nil {
-				return authnResult{fixErr: err}
-			}
-			md.Append("authorization", "Bearer "+tok)
+		p.auth = a
+		sub := wire.Dec(f[6])
+		if f[6] == "absent" {
+			sub = "\x00absent"
 		}
-		ctx := metadata.NewIncomingContext(context.Background(), md)
-		c, err := a.Authenticate(security.AuthContext{GrpcContext: ctx})
-		return authnResult{caller: c, err: err}
+		tok, err := s.oidc.token(f[5], sub, f[7], wire.DecList(f[8]))
+		if err != nil {
+			return nil, err
+		}
+		if v := authValues(f[4], tok); v != nil {
+			p.md["authorization"] = v
+		}
 	case "kube":
-		if len(f) != 9 {
-			return authnResult{fixErr: errors.New("bad kube line")}
+		if len(f) != 11 {
+			return nil, errors.New("bad kube line")
 		}
-		review := parseReview(f[8])
-		var via string
-		primary := wire.Dec(f[3])
+		review := parseReview(f[10])
 		aliases := map[string]string{}
 		for _, a := range wire.DecList(f[4]) {
 			k, v, _ := strings.Cut(a, "=")
@@ -401,66 +421,97 @@ func (s *authnSUT) run(f []string) (res authnResult) {
 		if f[5] != "nil" {
 			g := &remoteGetter{clients: map[cluster.ID]kubernetes.Interface{}}
 			for _, id := range wire.DecList(f[5]) {
-				g.clients[cluster.ID(id)] = scriptedClient("remote:"+id, review, &via)
+				g.clients[cluster.ID(id)] = scriptedClient("remote:"+id, review, p.via)
 				g.order = append(g.order, cluster.ID(id))
 			}
 			getter = g
 		}
-		a := kubeauth.NewKubeJWTAuthenticator(meshHolder{wire.Dec(f[2])}, scriptedClient("primary", review, &via), cluster.ID(primary), aliases, getter)
-		md := metadata.MD{}
+		security.TokenAudiences = wire.DecList(f[9])
+		p.auth = kubeauth.NewKubeJWTAuthenticator(meshHolder{wire.Dec(f[2])}, scriptedClient("primary", review, p.via), cluster.ID(wire.Dec(f[3])), aliases, getter)
 		if f[6] != "-" {
-			md["clusterid"] = wire.DecList(f[6])
+			p.md["clusterid"] = wire.DecList(f[6])
 		}
-		switch f[7] {
-		case "bearer":
-			md.Append("authorization", "Bearer some-token")
-		case "basic":
-			md.Append("authorization", "Basic dXNlcjpwYXNz")
+		if v := authValues(f[7], wire.Dec(f[8])); v != nil {
+			p.md["authorization"] = v
 		}
-		ctx := metadata.NewIncomingContext(context.Background(), md)
-		c, err := a.Authenticate(security.AuthContext{GrpcContext: ctx})
-		return authnResult{caller: c, err: err, via: via}
 	case "xfcc":
 		if len(f) != 6 {
-			return authnResult{fixErr: errors.New("bad xfcc line")}
+			return nil, errors.New("bad xfcc line")
 		}
 		features.TrustedGatewayCIDR = wire.DecList(f[2])
 		if features.TrustedGatewayCIDR == nil {
 			features.TrustedGatewayCIDR = []string{}
 		}
-		ctx := context.Background()
-		if f[3] != "nopeer" {
-			ctx = peer.NewContext(ctx, &peer.Peer{Addr: textAddr(wire.Dec(f[3]))})
+		p.auth = authenticate.XfccAuthenticator{}
+		if f[3] == "nopeer" {
+			p.hasPeer, p.peerAddr = false, ""
+		} else {
+			p.peerAddr = wire.Dec(f[3])
 		}
-		md := metadata.MD{}
 		if f[4] != "-" {
-			md[xfccparser.ForwardedClientCertHeader] = wire.DecList(f[4])
+			p.md[xfccparser.ForwardedClientCertHeader] = wire.DecList(f[4])
 		}
-		ctx = metadata.NewIncomingContext(ctx, md)
-		c, err := authenticate.XfccAuthenticator{}.Authenticate(security.AuthContext{GrpcContext: ctx})
-		return authnResult{caller: c, err: err}
 	case "cert":
 		if len(f) != 4 {
-			return authnResult{fixErr: errors.New("bad cert line")}
+			return nil, errors.New("bad cert line")
 		}
-		ctx := context.Background()
+		p.auth = &authenticate.ClientCertAuthenticator{}
 		switch f[2] {
+		case "nopeer":
+			p.hasPeer, p.authInfo = false, nil
 		case "noauth":
-			ctx = peer.NewContext(ctx, &peer.Peer{Addr: textAddr("10.0.0.1:1")})
+			p.authInfo = nil
 		case "other":
-			ctx = peer.NewContext(ctx, &peer.Peer{Addr: textAddr("10.0.0.1:1"), AuthInfo: otherAuthInfo{}})
+			p.authInfo = otherAuthInfo{}
 		case "tls":
 			chains, err := chainsFromTok(f[3])
 			if err != nil {
-				return authnResult{fixErr: err}
+				return nil, err
 			}
-			ctx = peer.NewContext(ctx, &peer.Peer{Addr: textAddr("10.0.0.1:1"),
-				AuthInfo: credentials.TLSInfo{State: tls.ConnectionState{VerifiedChains: chains}}})
+			st := tls.ConnectionState{VerifiedChains: chains}
+			p.authInfo = credentials.TLSInfo{State: st}
+			p.httpTLS = &st
 		}
-		c, err := (&authenticate.ClientCertAuthenticator{}).Authenticate(security.AuthContext{GrpcContext: ctx})
-		return authnResult{caller: c, err: err}
+	default:
+		return nil, errors.New("unknown authenticator " + f[0])
 	}
-	return authnResult{fixErr: errors.New("unknown authenticator " + f[1])}
+	return p, nil
+}
+
+// grpcContext is the request context the gRPC server would hand to CreateCertificate.
+func (p *prepared) grpcContext() context.Context {
+	ctx := context.Background()
+	if p.hasPeer {
+		ctx = peer.NewContext(ctx, &peer.Peer{Addr: textAddr(p.peerAddr), AuthInfo: p.authInfo})
+	}
+	return metadata.NewIncomingContext(ctx, p.md)
+}
+
+func (p *prepared) authContext() security.AuthContext {
+	if !p.http {
+		return security.AuthContext{GrpcContext: p.grpcContext()}
+	}
+	req := &http.Request{Header: http.Header{}, RemoteAddr: p.peerAddr, TLS: p.httpTLS}
+	for k, vs := range p.md {
+		for _, v := range vs {
+			req.Header.Add(k, v)
+		}
+	}
+	return security.AuthContext{Request: req}
+}
+
+func (s *authnSUT) run(f []string) (res authnResult) {
+	defer func() {
+		if rec := recover(); rec != nil {
+			res = authnResult{crash: true}
+		}
+	}()
+	p, err := s.prepare(f[1:])
+	if err != nil {
+		return authnResult{fixErr: err}
+	}
+	c, err := p.auth.Authenticate(p.authContext())
+	return authnResult{caller: c, err: err, via: *p.via}
 }
 
 func (s *authnSUT) apply(f []string) string {
